@@ -44,6 +44,14 @@ class Cfg:
         return rq.vangle(p, acc)
 
 
+SPELL_K = 0        # set per case by vt.run (from the case digest): how this case spells the frame names (compared case-insensitively by EKF and ROLEQ)
+
+
+def sp(word):
+    from . import gens
+    return gens.spell(word, SPELL_K)
+
+
 def registry():
     import ahrs
     F = ahrs.filters
@@ -77,12 +85,12 @@ def registry():
     # ---- EKF
     for fr in ("NED", "ENU"):
         add("EKF/IMU/" + fr, "imu", "T",
-            lambda g, a, m, q0=None, fr=fr, **kw: F.EKF(g, a, frame=fr, **kw_q0(q0), **kw).Q,
-            lambda fr=fr, **kw: F.EKF(frame=fr, **kw), lambda f, q, g, a, m, **k: f.update(q, g, a, **k),
+            lambda g, a, m, q0=None, fr=fr, **kw: F.EKF(g, a, frame=sp(fr), **kw_q0(q0), **kw).Q,
+            lambda fr=fr, **kw: F.EKF(frame=sp(fr), **kw), lambda f, q, g, a, m, **k: f.update(q, g, a, **k),
             lambda f, dip: (np.array(f.a_ref, float), None))
         add("EKF/MARG/" + fr, "marg", "T",
-            lambda g, a, m, q0=None, fr=fr, **kw: F.EKF(g, a, m, frame=fr, **kw_q0(q0), **kw).Q,
-            lambda fr=fr, **kw: F.EKF(frame=fr, **kw), lambda f, q, g, a, m, **k: f.update(q, g, a, m, **k),
+            lambda g, a, m, q0=None, fr=fr, **kw: F.EKF(g, a, m, frame=sp(fr), **kw_q0(q0), **kw).Q,
+            lambda fr=fr, **kw: F.EKF(frame=sp(fr), **kw), lambda f, q, g, a, m, **k: f.update(q, g, a, m, **k),
             lambda f, dip: (np.array(f.a_ref, float), np.array(f.m_ref, float)), defaults={"magnetic_ref": "dip_deg"})
     # ---- UKF
     add("UKF", "imu", "T",
@@ -108,8 +116,8 @@ def registry():
     # ---- ROLEQ
     for fr in ("NED", "ENU"):
         add("ROLEQ/" + fr, "marg", "T",
-            lambda g, a, m, q0=None, fr=fr, **kw: F.ROLEQ(g, a, m, frame=fr, **kw_q0(q0), **kw).Q,
-            lambda fr=fr, **kw: F.ROLEQ(frame=fr, **kw), lambda f, q, g, a, m, **k: f.update(q, g, a, m, **k),
+            lambda g, a, m, q0=None, fr=fr, **kw: F.ROLEQ(g, a, m, frame=sp(fr), **kw_q0(q0), **kw).Q,
+            lambda fr=fr, **kw: F.ROLEQ(frame=sp(fr), **kw), lambda f, q, g, a, m, **k: f.update(q, g, a, m, **k),
             lambda f, dip: (np.array(f.a_ref, float), np.array(f.m_ref, float)), defaults={"magnetic_ref": "dip_deg"})
     # ---- FKF (batch only)
     add("FKF", "marg", "T",
